@@ -152,7 +152,49 @@ def oracle_c15(case, impl, tag, ctx):
     return None
 
 
-ORACLES = {"c09": oracle_c09, "c10": oracle_c10, "c11": oracle_c11, "c15": oracle_c15}
+def nontrivial_parse(case, impl, tag):
+    t = impl.split(" ")
+    return t[0] == "err" or t[0] == "panic" or (t[0] == "ok" and t[1] != "0")
+
+
+NONTRIVIAL["parse"] = nontrivial_parse
+
+
+def _text_of_parse_case(case):
+    return bytes.fromhex(case.split(" ")[2][1:]).decode("utf-8", "replace")
+
+
+def rust_line_count(text):
+    if text == "":
+        return 0
+    n = text.count("\n")
+    return n if text.endswith("\n") else n + 1
+
+
+def oracle_c04(case, impl, tag, ctx):
+    """never a panic; an error is located between 1 and one past the last line; an injected
+    malformed line is reported at that very line"""
+    t = impl.split(" ")
+    if t[0] == "panic":
+        return "the parser panicked"
+    if t[0] == "err":
+        n = rust_line_count(_text_of_parse_case(case))
+        line = int(t[2])
+        if not (1 <= line <= n + 1):
+            return f"error located at line {line} of a {n}-line text"
+    m = re.match(r"c04 inject line=(\d+) bad=(.*)", tag)
+    if m:
+        if t[0] != "err" or int(t[2]) != int(m.group(1)):
+            return f"malformed line {m.group(2)!r} injected at line {m.group(1)} but the parser answered {' '.join(t[:3])}"
+    return None
+
+
+ORACLES = {"c04": oracle_c04, "c09": oracle_c09, "c10": oracle_c10, "c11": oracle_c11, "c15": oracle_c15}
 
 # --------------------------------------------------------------------------- known findings
-KNOWN_PREDICATES = {}
+def known_humantime_panic(item, k):
+    # the proved model attributes the panic to Duration::new overflow inside humantime
+    return item.get("impl") == "panic" and item.get("model") == "panic"
+
+
+KNOWN_PREDICATES = {"model_predicts_humantime_overflow_panic": known_humantime_panic}
